@@ -37,6 +37,8 @@ type c15run struct {
 	seq    int
 }
 
+var c15store *util.PNodeDB // per worker: malformed records are planted in it and read back
+
 var c15reused *wmpt.WeightedMerkleTrie // the long-lived decoder object of this worker process
 
 // feed hands one input to the target. A panic (recovered here) is a violation; a fatal error or a stall kills the
@@ -68,6 +70,26 @@ func (r *c15run) feed(mut string, in []byte) {
 	}()
 	switch r.target {
 	case tCreateNode:
+		if r.seq%4 == 0 {
+			// the same bytes as a stored record, read through the persistent store (alternately with the debug switch on,
+			// which adds a key check to the store's code path)
+			if c15store == nil {
+				c15store, _ = util.NewPNodeDB("/verif-stub/C15/getnode", "")
+			}
+			key := bytes.Repeat([]byte{0x5c}, 32)
+			grocksdb.Control("/verif-stub/C15/getnode").PutRaw("default", key, in)
+			dbg := r.seq%8 == 0
+			func() {
+				if dbg {
+					util.DebugMPTNode = true
+					defer func() { util.DebugMPTNode = false }()
+				}
+				if sn, gerr := c15store.GetNode(key); gerr == nil && sn != nil {
+					_ = sn.Encode()
+				}
+			}()
+			c.Count("stored_records_read_through_the_persistent_store", 1)
+		}
 		n, err := util.CreateNode(bytes.NewReader(in))
 		if err != nil || n == nil {
 			c.Count("rejected", 1)
@@ -513,7 +535,7 @@ func init() {
 		ID:           "C15",
 		EvalCounters: []string{"inputs"},
 		Level:        "exploration",
-		Rule: "(Every other path-export input is decoded by one long-lived trie object per worker, so that a decoder left locked or half-updated by a rejected input shows on the next one.) each case harvests real encodings at run time (state-trie nodes of a generated trie incl. a value node; weighted-trie nodes from a committed store, hash and nil nodes; GetPath exports for 0/1/3/12 keys; block proofs) and feeds one of five decoding entry points (case index mod 5; the fifth plants the bytes as a persisted dead-node record and runs the pruner over it) with derived inputs: " +
+		Rule: "(Every fourth state-trie node input is also planted as a stored record and read through PNodeDB.GetNode, alternately with the debug switch on. Every other path-export input is decoded by one long-lived trie object per worker, so that a decoder left locked or half-updated by a rejected input shows on the next one.) each case harvests real encodings at run time (state-trie nodes of a generated trie incl. a value node; weighted-trie nodes from a committed store, hash and nil nodes; GetPath exports for 0/1/3/12 keys; block proofs) and feeds one of five decoding entry points (case index mod 5; the fifth plants the bytes as a persisted dead-node record and runs the pruner over it) with derived inputs: " +
 			"every truncation length (exhaustive for bases <= 512 bytes), every value 0..255 of the first byte, removal of each ':' separator, bit flips, byte inserts/deletes, CBOR head inflation to 1/2/4/8-byte lengths, field splicing between encodings, every type byte x crafted bodies (one separator, 15/16/17 separators, child hex of length 63/65/66, non-hex), " +
 			"branch child hex strings of every length 0..140, CBOR child/value/hash blobs of every length 0..80, branch arrays of 0..20 children, nil / empty / dropped / duplicated / foreign elements in exports and proofs, hand-crafted CBOR (nil in place of structs, wrong arities, indefinite lengths), random bytes. " +
 			"The input is written to disk before each call; a recovered panic, a fatal exit or a call that does not return for 60 s is a violation; accepted inputs are re-encoded (Encode/GetHashBytes/CloneNode; Serialize/Copy; Root/GetPath). distinct non-trivial = distinct (decoder, input bytes) pairs; inputs are also counted per mutator",
@@ -525,7 +547,7 @@ func init() {
 		},
 		Run:          runC15,
 		StallSeconds: 60,
-		Floors: map[string]int64{"inputs_to_a_reused_trie_object": 100000, "inputs": 1000000, "accepted": 20000, "rejected": 500000, "inputs:util.CreateNode": 100000, "inputs:wmpt.DeserializeNode": 100000, "inputs:WeightedMerkleTrie.Deserialize": 100000, "inputs:WeightedMerkleTrie.VerifyBlockProof": 100000, "inputs:PNodeDB.PruneBelowVersion(dead-node record)": 30000,
+		Floors: map[string]int64{"inputs_to_a_reused_trie_object": 100000, "stored_records_read_through_the_persistent_store": 100000, "inputs": 1000000, "accepted": 20000, "rejected": 500000, "inputs:util.CreateNode": 100000, "inputs:wmpt.DeserializeNode": 100000, "inputs:WeightedMerkleTrie.Deserialize": 100000, "inputs:WeightedMerkleTrie.VerifyBlockProof": 100000, "inputs:PNodeDB.PruneBelowVersion(dead-node record)": 30000,
 			"mutator:truncation": 50000, "mutator:separator removed": 5000, "mutator:first byte 0..255": 100000, "mutator:cbor head inflated": 10000, "mutator:branch child blob of length 0..80": 1000, "mutator:branch array of 0..20 children": 1000, "mutator:nil element": 1000, "mutator:dead-node record with a key of length 0..140": 5000},
 		Assumptions: []string{"inputs are near-valid derivations of real encodings plus random strings, at most 64 KiB; not all byte strings"},
 	})
